@@ -283,6 +283,8 @@ impl InsertionHeuristic {
             match result {
                 InsertionResult::Success(success) => {
                     apply_insertion_success(&mut insertion_ctx, success);
+                    #[cfg(reinterpretcat_vrp_verif)]
+                    verif_hooks::notify(&insertion_ctx);
                 }
                 InsertionResult::Failure(failure) => {
                     // NOTE copy data to make borrow checker happy
@@ -452,4 +454,31 @@ fn copy_selection_data(
     let jobs = jobs.iter().map(|&job| job.clone()).collect::<Vec<_>>();
 
     (route_indices, jobs)
+}
+
+/// Verification hook (compiled only with `--cfg reinterpretcat_vrp_verif`): an optional thread-local observer
+/// which is called after each applied insertion inside `InsertionHeuristic::process`.
+#[cfg(reinterpretcat_vrp_verif)]
+pub mod verif_hooks {
+    use super::InsertionContext;
+    use std::cell::RefCell;
+
+    type Observer = Box<dyn Fn(&InsertionContext)>;
+
+    thread_local! {
+        static OBSERVER: RefCell<Option<Observer>> = const { RefCell::new(None) };
+    }
+
+    /// Sets (or clears) the observer for the current thread.
+    pub fn set_insertion_observer(observer: Option<Observer>) {
+        OBSERVER.with(|o| *o.borrow_mut() = observer);
+    }
+
+    pub(crate) fn notify(insertion_ctx: &InsertionContext) {
+        OBSERVER.with(|o| {
+            if let Some(observer) = o.borrow().as_ref() {
+                observer(insertion_ctx)
+            }
+        });
+    }
 }
